@@ -6,7 +6,9 @@
 // (`ZoomHeader`s) that write_info later stores in the header.
 // C07/C08: "levels are listed with strictly increasing resolution".  C09: "header fields, offsets and
 // counts are mutually consistent": every directory entry points at the bytes of its own level, the
-// regions are disjoint and ascending, nothing already in the file is overwritten.
+// regions are disjoint and ascending, nothing already in the file is overwritten; at every entry's index_offset
+// lies the published R-tree index of THAT level's sections (the reader finds the zoom records through it: C07/C08;
+// "each level's index": C09) -- write_rtreeindex carries the contract unit rt_layout proves for it.
 use vstd::prelude::*;
 verus! {
 //@include ../_shared/bytes.rs
@@ -165,6 +167,10 @@ pub open spec fn entry_holds(d: Seq<u8>, e: ZoomHeader, lv: ZoomInfo) -> bool {
 pub open spec fn index_holds(d: Seq<u8>, e: ZoomHeader, lv: ZoomInfo, o: BBIWriteOptions) -> bool {
     index_at(d, e.index_offset as int, tree_of(lv.sections, e.data_offset, o), o, lv.sections.count())
 }
+/// where that index ends
+pub open spec fn index_end(e: ZoomHeader, lv: ZoomInfo, o: BBIWriteOptions) -> int {
+    e.index_offset + index_bytes(tree_of(lv.sections, e.data_offset, o), o, lv.sections.count(), e.index_offset as int).len()
+}
 /// the ghost bookkeeping of the loop: `idx[j]` = input level of entry j
 pub open spec fn book_ok(z: Seq<ZoomInfo>, e: Seq<ZoomHeader>, idx: Seq<int>, d: Seq<u8>, n0: int, upto: int, o: BBIWriteOptions) -> bool {
     &&& idx.len() == e.len()
@@ -174,6 +180,7 @@ pub open spec fn book_ok(z: Seq<ZoomInfo>, e: Seq<ZoomHeader>, idx: Seq<int>, d:
     &&& forall|j: int| 0 <= j < e.len() ==> entry_holds(d, #[trigger] e[j], z[idx[j]])
     &&& forall|j: int| 0 <= j < e.len() ==> n0 <= (#[trigger] e[j]).data_offset
     &&& forall|a: int, b: int| 0 <= a < b < e.len() ==> (#[trigger] e[a]).index_offset <= (#[trigger] e[b]).data_offset
+    &&& forall|a: int, b: int| 0 <= a < b < e.len() ==> index_end(#[trigger] e[a], z[idx[a]], o) <= (#[trigger] e[b]).data_offset
 }
 pub open spec fn umax(a: int, b: int) -> int { if a >= b { a } else { b } }
 pub open spec fn umin(a: int, b: int) -> int { if a <= b { a } else { b } }
@@ -278,6 +285,10 @@ pub proof fn lemma_book_push(z: Seq<ZoomInfo>, e: Seq<ZoomHeader>, idx: Seq<int>
         if b == e.len() { assert(entry_holds(d1, e[a], z[idx[a]])); }
         else { assert(e[a].index_offset <= e[b].data_offset); }
     }
+    assert forall|a: int, b: int| 0 <= a < b < e2.len() implies index_end(#[trigger] e2[a], z[idx2[a]], o) <= (#[trigger] e2[b]).data_offset by {
+        if b == e.len() { assert(index_holds(d1, e[a], z[idx[a]], o)); }
+        else { assert(index_end(e[a], z[idx[a]], o) <= e[b].data_offset); }
+    }
     assert forall|a: int, b: int| 0 <= a < b < e2.len() implies (#[trigger] idx2[a]) < (#[trigger] idx2[b]) by {
         if b == e.len() { assert(0 <= idx[a] < k); } else { assert(idx[a] < idx[b]); }
     }
@@ -328,6 +339,9 @@ pub proof fn lemma_lvl_of(z: Seq<ZoomInfo>, k: int)
         r matches Ok(v) ==> forall|j: int| 0 <= j < v@.len() ==> old(file).data().len() <= (#[trigger] v@[j]).data_offset,
         [[L: regions_disjoint_and_ascending]]
         r matches Ok(v) ==> forall|a: int, b: int| 0 <= a < b < v@.len() ==> (#[trigger] v@[a]).index_offset <= (#[trigger] v@[b]).data_offset,
+        [[L: each_index_ends_before_the_next_level_starts]]
+        r matches Ok(v) ==> forall|a: int, b: int| 0 <= a < b < v@.len() ==>
+            index_end(#[trigger] v@[a], zooms@[lvl_of(zooms@, v@[a].reduction_level)], *options) <= (#[trigger] v@[b]).data_offset,
         [[L: old_content_is_prefix_nothing_overwritten]]
         r is Ok ==> prefix(old(file).data(), final(file).data()),
         [[L: still_in_append_mode]]
